@@ -44,6 +44,8 @@ def run(prog, rep, tier):
     check_sibling_messages(prog, r4)
     r5 = rep.rule("R17.5", "fixed-size byte arrays (ESI, MAC, extended community, route target) are converted whole")
     check_array_coverage(prog, r5)
+    r6 = rep.rule("R17.6", "read_extcom: a typed extended community accounts for all 8 octets and for the transitivity bit")
+    check_extcom_reader(prog, r6)
 
 
 def check_ctor_classes(prog, r):
@@ -333,3 +335,90 @@ def check_array_coverage(prog, r):
             else:
                 r.ok("%s: all %d bytes of `%s` are converted" % (short(nm), n, base))
     r.floor("fixed-size byte arrays taken apart / assembled with constant indices in convert.rs", n_sites, 7)
+
+
+# ---------------------------------------------------------------------------------------------- R17.6
+def _locals_in(x, out):
+    if isinstance(x, dict):
+        if "l" in x and isinstance(x["l"], int):
+            out.add(x["l"])
+        for v in x.values():
+            _locals_in(v, out)
+    elif isinstance(x, list):
+        for v in x:
+            _locals_in(v, out)
+
+
+def _use_map(fv):
+    """local -> number of reads of it (statement right-hand sides, index projections, terminator operands)."""
+    uses = {}
+    def add(x):
+        s = set()
+        _locals_in(x, s)
+        for l in s:
+            uses[l] = uses.get(l, 0) + 1
+    for bi in fv.live:
+        b = fv.blocks[bi]
+        for s in b["s"]:
+            if "rv" in s:
+                add(s["rv"])
+                add([p for p in (s["p"].get("p") or []) if isinstance(p, dict) and "i" in p])
+        t = b["t"]
+        for key in ("args", "o", "cond", "ops"):
+            if key in t:
+                add(t[key])
+    return uses
+
+
+def check_extcom_reader(prog, r):
+    """read_extcom turns 8 wire bytes into a typed API message.  A typed (non-Unknown) message reproduces the bytes only if
+    every one of them went into it: (a) the two type octets plus the octets read with a used result add up to 8, or the arm is
+    guarded by a test over the raw bytes; (b) the transitivity bit taken out of the type octet is either a field of the message
+    or tested on the way to it (Unknown carries the whole type octet)."""
+    k = prog.one(r"rustybgpd::convert::read_extcom")
+    fv = view(prog, k)
+    r.analysed(prog.name(k))
+    rend = Renderer(fv, depth=8)
+    uses = _use_map(fv)
+    reads = []     # (block, width, used?)
+    for b, t in fv.calls(re.compile(r"byteorder::(io::)?ReadBytesExt::read_(u|i)(8|16|24|32|48|64|128)$")):
+        w = int(re.search(r"(\d+)$", t["f"]["name"]).group(1)) // 8
+        # follow Result -> unwrap/expect/? -> value
+        l = t["dest"]["l"]
+        val = None
+        for b2, t2 in fv.calls(re.compile(r".*Result::<T, E>::(unwrap|expect|unwrap_or|unwrap_or_default)$")):
+            s = set()
+            _locals_in(t2["args"][0], s)
+            if l in s:
+                val = t2["dest"]["l"]
+        used = val is not None and uses.get(val, 0) > 0
+        reads.append((b, w, used))
+    r.floor("cursor reads in read_extcom", len(reads), 15)
+    brs = branches(fv)
+    n = 0
+    for bi, si, s in fv.aggregates(re.compile(r"rustybgp_api::\w+Extended$")):
+        adt = s["rv"].get("adtn") or s["rv"].get("adt")
+        name = adt.split("::")[-1]
+        if name == "UnknownExtended":
+            continue
+        n += 1
+        gs = flat_guards(fv, bi, brs)
+        dom_reads = [(b, w, u) for b, w, u in reads if fv.dominates(b, bi)]
+        used_bytes = sum(w for b, w, u in dom_reads if u)
+        raw_guard = any(g[0] == "call" and not re.search(r"read_(u|i)\d+$", g[1]) and ({"c", "start"} & set(expr_vars(g))) for g, l, h in gs)
+        if used_bytes == 8 or raw_guard:
+            r.ok("read_extcom: %s accounts for all 8 octets (%s)" % (name, "reads with used results" if used_bytes == 8 else "%d octets read, the rest tested through the raw bytes" % used_bytes))
+        else:
+            r.fail(prog.name(k), "extcom-octets-dropped:" + name,
+                   "%s is built from %d of the 8 octets (reads whose result is used) and nothing on the way tests the remaining ones: any value in them is lost, "
+                   "so the community is displayed as something it is not and does not round-trip" % (name, used_bytes), fv.loc(bi))
+        fields = [rend.operand(o, 8) for o in s["rv"]["fields"]]
+        carries = any({"is_transitive", "type_high"} & set(expr_vars(f)) for f in fields)
+        tested = any("is_transitive" in expr_vars(g) for g, l, h in gs)
+        if carries or tested:
+            r.ok("read_extcom: %s %s the transitivity bit" % (name, "stores" if carries else "is built only under a test of"))
+        else:
+            r.fail(prog.name(k), "extcom-transitivity-dropped:" + name,
+                   "%s has no is_transitive field and is built whether or not the non-transitive bit (0x40) of the type octet is set: write_extcom() re-emits it with the "
+                   "transitive type, so a non-transitive community changes when listed and re-added" % name, fv.loc(bi))
+    r.floor("typed extended-community messages built by read_extcom", n, 10)
